@@ -123,6 +123,10 @@ def run(rep: Report, tier: str):
     rep.rule("C16.one-injection", "exactly one injection call with the payload, before the pickle is written", 2)
     rep.rule("C16.input-read-only", "input only read; overwrite = rename output onto input, no stray output", 2)
     rep.rule("C16.fresh-parse", "the parsed pickle comes from this wrapper's archive, not from a process-wide cache", 1)
+    rep.rule("C16.payload-encodable", "a text payload the injector accepts also serialises (no failure from dumps() once the output archive is open)", 10)
+    from .c15 import check_accepted_is_encodable
+
+    check_accepted_is_encodable(load_repo(), rep, "C16.payload-encodable", tier)
     global MEMBERS
     orders = [list(MEMBERS)]
     if tier == "thorough":
